@@ -32,6 +32,11 @@ def check(ctx):
     ctx.floor("T2-lossless", 250)
     merge_and_split(ctx, repo)
     warn(ctx, repo)
+    no_direct_node_calls(ctx, s)
+    from .c11 import return_annotation_sites
+
+    ctx.rule("A3", "the declared type of a group / pointer aggregate - the type a supplied column of that name is converted to - comes from the result-type rule in every branch of _annotations_for_aggregation")
+    return_annotation_sites(ctx, repo, "A3")
     # a supplied column is used positionally, like every other column
     from ._wholecol import label_alignment
 
@@ -304,3 +309,53 @@ def warn(ctx, repo):
     ctx.ob("F-warn", ok=not sup, distinct="no-filter")
     for n in sup:
         ctx.violation("F-warn", "warning-filtered", itf.loc(n), f"`{ast.unparse(n)[:70]}` in the interface module can silence the overlap warning")
+
+
+def no_direct_node_calls(ctx, s):
+    """A2: a rule gets another node's value as an argument, never by calling the node's function: a direct call
+    recomputes the value and ignores a column supplied under that node's name."""
+    import datetime
+
+    ctx.rule("A2", "no active rule calls the function of another active, computable DAG node directly (a supplied column for that node would be announced as overriding it and then ignored by the caller)")
+    repo = s.repo
+    byname = {(r.mod.rel, r.name): r for r in repo.rules}
+    start = datetime.date(1990, 1, 1)
+    dates = sorted({f for f, _ in s.em.intervals(start)})
+    dates = [d for i, d in enumerate(dates) if ctx.tier == "thorough" or i % 4 == 0 or d.year >= 2015]
+    seen = set()
+    ncalls = 0
+    for d in dates:
+        dag = s.dag(d)
+        consumed = set()
+        for node in dag.nodes.values():
+            if node.kind == "rule":
+                consumed |= set(node.args or [])  # automatically derived converters / sums do not make a helper a node
+        for n, node in dag.nodes.items():
+            if node.kind != "rule":
+                continue
+            r = node.rule
+            for c in ast.walk(r.node):
+                if not (isinstance(c, ast.Call) and isinstance(c.func, ast.Name)):
+                    continue
+                callee = byname.get((r.mod.rel, c.func.id))
+                if callee is None and c.func.id in r.mod.imports:
+                    src = r.mod.imports[c.func.id]
+                    callee = next((x for x in repo.rules if x.name == src[1] and x.mod.rel.replace("/", ".").removesuffix(".py") in src[0]), None) if isinstance(src, tuple) else None
+                if callee is None or callee is r:
+                    continue
+                ncalls += 1
+                cn = dag.nodes.get(callee.dag_name)
+                active = cn is not None and cn.rule is callee
+                args = [a for a in callee.argnames if not a.endswith("_params")]
+                computable = all((a in dag.nodes) or (a in dag.data_cols) for a in args)
+                is_node = not callee.name.startswith("_") or callee.dag_name in consumed or callee.dag_name in dag.targets
+                bad = active and computable and is_node
+                key = (r.qual, callee.qual)
+                if key in seen:
+                    continue
+                if bad:
+                    seen.add(key)
+                    ctx.ob("A2", ok=False, distinct=key)
+                    ctx.violation("A2", f"{r.qual}|calls {callee.dag_name}", f"src/_gettsim/{r.mod.rel}:{c.lineno} {r.name}", f"at {d} {r.name} calls {callee.name}(...) directly although `{callee.dag_name}` is a node of the graph at that date: a column supplied as `{callee.dag_name}` is reported as overriding the function and then ignored here (the value is recomputed)")
+    ctx.ob("A2", ok=True, distinct="calls examined", n=max(ncalls, 1))
+    ctx.floor("A2", 20)
